@@ -77,7 +77,7 @@ def _match_dict(case, m):
     return True
 
 
-def match(known, clause, site, case, dev):
+def match(known, clause, site, case, dev, ignore_table=False):
     for f in known:
         cl = f.get("clause")
         if cl is not None:
@@ -86,8 +86,13 @@ def match(known, clause, site, case, dev):
                     continue
             elif cl != clause:
                 continue
-        if f.get("site") is not None and f["site"] != site:
-            continue
+        fs = f.get("site")
+        if fs is not None:
+            if isinstance(fs, list):
+                if site not in fs:
+                    continue
+            elif fs != site:
+                continue
         if "match_any" in f:
             if not any(_match_dict(case, m) for m in f["match_any"]):
                 continue
@@ -97,8 +102,37 @@ def match(known, clause, site, case, dev):
         if env and "dev_max" in env:
             if dev is None or abs(dev) > env["dev_max"]:
                 continue
+        tab = f.get("dev_table")
+        if tab and not ignore_table:
+            # the deviation recorded for exactly this input (findings_data/<id>.json,
+            # written once by tools/record_tables.py, never at check time)
+            values = _table(tab["file"])
+            key = table_key(tab["keys"], case, site)
+            if key not in values or dev is None:
+                continue
+            ref = values[key]
+            if abs(dev - ref) > tab["tol_abs"] + tab.get("tol_rel", 0.0) * abs(ref):
+                continue
         return f["id"]
     return None
+
+
+_tables = {}
+
+
+def _table(name):
+    if name not in _tables:
+        path = os.path.join(ROOT, name)
+        if os.path.exists(path):
+            with open(path) as fh:
+                _tables[name] = json.load(fh)
+        else:
+            _tables[name] = {}
+    return _tables[name]
+
+
+def table_key(keys, case, site=None):
+    return "|".join([str(site)] + [repr(case.get(k)) for k in keys])
 
 
 def what(fid):
